@@ -117,6 +117,21 @@ def matchesKeys (kvs po : List (String × Json)) : Bool :=
     | some v => equivB [.set] v kv.2
     | none => false)
 
+/-- as `matchesKeys`, and a key the object does not have matches a null in the path object (the diff
+    writes null for a set key the member lacks) -/
+def matchesKeysTol (kvs po : List (String × Json)) : Bool :=
+  po.all (fun kv => match alookup kv.1 kvs with
+    | some v => equivB [.set] v kv.2
+    | none => kv.2.isNull)
+
+/-- the members a keyed path element `{"k":v}` denotes: the objects carrying exactly these key values;
+    when there is none, the objects that carry them where they have the key and lack the keys that are
+    null in the path -/
+def keyedMembers (xs : List Json) (po : List (String × Json)) : Json → Bool :=
+  let exact : Json → Bool := fun x => match x with | .obj kvs => matchesKeys kvs po | _ => false
+  if xs.any exact then exact
+  else fun x => match x with | .obj kvs => matchesKeysTol kvs po | _ => false
+
 /-- reference semantics of one hunk with any path: keys and indices as in `applyStrict`, a final
     set `{}` or multiset `[]` element, and keyed members `{"k":v}` (exactly one member must match;
     the rest of the path is applied inside it and its failure is the hunk's failure) -/
@@ -136,12 +151,10 @@ def applyHunkRef (n : Json) : Path → Hunk → Option Json
     if rest.isEmpty then none
     else match n with
       | .arr _ xs =>
-        match xs.filter (fun x => match x with | .obj kvs => matchesKeys kvs po | _ => false) with
+        match xs.filter (keyedMembers xs po) with
         | [m] =>
           (applyHunkRef m rest h).map (fun v =>
-            Json.arr .raw (xs.map (fun x => match x with
-              | .obj kvs => if matchesKeys kvs po then v else x
-              | _ => x)))
+            Json.arr .raw (xs.map (fun x => if keyedMembers xs po x then v else x)))
         | _ => none
       | _ => none
   | [.idx i], h =>
